@@ -346,6 +346,10 @@ func C09(ctx *core.Ctx) {
 			"a reply is written with a context other than the request's: the caller sees another request's op id / headers")
 	}
 
+	// ---- R8: a reply is encoded into a buffer of its own ---------------------------------
+	ctx.Rule("C09.R8", "the response a caller receives carries only its own request's op id, correlation id and response headers: every server entry point encodes each reply into a buffer allocated for that message (never a pooled or shared one)", 2)
+	perMessageTransports(ctx, r, "C09.R8")
+
 	// ---- R7: the dispatcher hands the handler the context as it was received ---------------
 	ctx.Rule("C09.R7", "the server-side dispatcher does not rewrite the request's context: between ReadRequestHeader and the processor function no request header (timeout, correlation id, user header) is set on it", 1)
 	if proc := r.Fn("C09.R7", "(*FBaseProcessor).Process"); proc != nil {
